@@ -12,6 +12,7 @@
 package c10
 
 import (
+	"sync/atomic"
 	"bytes"
 	"fmt"
 	"strings"
@@ -52,7 +53,30 @@ func (s *seen) flush(m *mon.M) {
 	}
 }
 
-func payload(r *vrand.Rand, n int) []byte { return r.Bytes(n) }
+// payload returns n PRNG bytes; half of them begin like the data real frames carry (Annex-B start codes, an AVCC
+// length prefix, ADTS sync, a nested FLV/tag/config header, all-zero, all-ones), which is what a packager that
+// "recognizes" content would react to.  The payload is opaque to the statement: it must round-trip whatever it is.
+var payloadShapes = [][]byte{{0, 0, 0, 1}, {0, 0, 1}, {0, 0, 0, 0}, {0xff, 0xf1}, {0xff, 0xff, 0xff, 0xff}, []byte("FLV\x01"),
+	{0x17, 0, 0, 0, 0}, {0xaf, 1}, {1, 0x64, 0, 0x1f, 0xff, 0xe1}, {0x12, 0x10}, {0xff, 0xf9}}
+
+var shapeHits [16]int64
+
+func payload(r *vrand.Rand, n int) []byte {
+	b := r.Bytes(n)
+	if n == 0 || !r.Chance(1, 2) {
+		return b
+	}
+	k := r.Intn(len(payloadShapes) + 1)
+	if k == len(payloadShapes) {
+		if n >= 4 {
+			b[0], b[1], b[2], b[3] = byte((n-4)>>24), byte((n-4)>>16), byte((n-4)>>8), byte(n-4) // one AVCC NAL unit filling the payload
+		}
+	} else {
+		copy(b, payloadShapes[k])
+	}
+	atomic.AddInt64(&shapeHits[k], 1)
+	return b
+}
 
 // lenClass keeps the grid's payload lengths exact and buckets the random ones of the thorough tier.
 func lenClass(n int) string {
@@ -395,6 +419,10 @@ func TestVerif_C10_Audio(t *testing.T) {
 		}
 	})
 	sn.flush(m)
+	for k := 0; k <= len(payloadShapes); k++ {
+		m.Count(fmt.Sprintf("payloads_shaped_%02d", k), atomic.LoadInt64(&shapeHits[k]))
+		m.Require(fmt.Sprintf("payloads_shaped_%02d", k), 100)
+	}
 }
 
 // ---------------------------------------------------------------------------------------------
@@ -627,6 +655,10 @@ func TestVerif_C10_Video(t *testing.T) {
 		}
 	})
 	sn.flush(m)
+	for k := 0; k <= len(payloadShapes); k++ {
+		m.Count(fmt.Sprintf("payloads_shaped_%02d", k), atomic.LoadInt64(&shapeHits[k]))
+		m.Require(fmt.Sprintf("payloads_shaped_%02d", k), 100)
+	}
 }
 
 // ---------------------------------------------------------------------------------------------
